@@ -79,13 +79,20 @@ func queryObs(f *gcs.Filter, key [gcs.KeySize]byte, queries string) string {
 	for _, q := range strings.Split(queries, ";") {
 		items := expandItems(q)
 		cnt := 0
+		per := make([]byte, 0, len(items)) // one answer per item: 1 / 0 / E, so that a miss and a false hit cannot cancel
 		for _, it := range items {
 			m, err := f.Match(key, it)
-			if err == nil && m {
+			switch {
+			case err != nil:
+				per = append(per, 'E')
+			case m:
 				cnt++
+				per = append(per, '1')
+			default:
+				per = append(per, '0')
 			}
 		}
-		out += " " + itoa(cnt) + "/" + bOr(f.ZipMatchAny(key, items)) + "/" + bOr(f.HashMatchAny(key, items)) + "/" + bOr(f.MatchAny(key, items))
+		out += " " + itoa(cnt) + "." + string(per) + "/" + bOr(f.ZipMatchAny(key, items)) + "/" + bOr(f.HashMatchAny(key, items)) + "/" + bOr(f.MatchAny(key, items))
 	}
 	return out
 }
